@@ -38,13 +38,14 @@ VARIABLES l,
           ctx,       \* stack of open limited contexts (serial numbers), innermost last
           nctx,      \* contexts opened so far
           dead,      \* set of contexts that have been left
+          ord,       \* [id -> position in the order of marking (re-marking moves a value to the end)]
           killedc,   \* contexts that ended by a kill (their finalisers are skipped)
           lastb      \* id of the last value finalised by the current closing batch (reverse order of marking)
-tvars == <<l, kind, iso, reach, fin, rel, ctx, nctx, dead, killedc, lastb>>
-Ids == 1..16
+tvars == <<l, kind, iso, reach, fin, rel, ctx, nctx, dead, ord, killedc, lastb>>
+Ids == 1..64
 
 Fresh == /\ kind = [i \in Ids |-> "none"] /\ iso = [i \in Ids |-> 0] /\ reach = [i \in Ids |-> FALSE]
-         /\ fin = [i \in Ids |-> 0] /\ rel = [i \in Ids |-> 0] /\ ctx = <<>> /\ nctx = 0 /\ dead = {} /\ killedc = {} /\ lastb = 99
+         /\ fin = [i \in Ids |-> 0] /\ rel = [i \in Ids |-> 0] /\ ctx = <<>> /\ nctx = 0 /\ dead = {} /\ ord = [i \in Ids |-> 0] /\ killedc = {} /\ lastb = 2000000000
 TInit == l = 1 /\ Fresh /\ TLCSet(1, 0)
 Ev == Trace[l]
 Is(k) == l <= Len(Trace) /\ Ev.k = k
@@ -53,13 +54,17 @@ Cur == IF ctx = <<>> THEN 0 ELSE ctx[Len(ctx)]
 
 TMk == /\ Is("mk") /\ kind[Ev.id] = "none"
        /\ kind' = [kind EXCEPT ![Ev.id] = Ev.kind] /\ iso' = [iso EXCEPT ![Ev.id] = Cur]
-       /\ reach' = [reach EXCEPT ![Ev.id] = TRUE]
-       /\ Adv /\ lastb' = 99 /\ UNCHANGED <<fin, rel, ctx, nctx, dead, killedc>>
+       /\ reach' = [reach EXCEPT ![Ev.id] = TRUE] /\ ord' = [ord EXCEPT ![Ev.id] = l]
+       /\ Adv /\ lastb' = 2000000000 /\ UNCHANGED <<fin, rel, ctx, nctx, dead, killedc>>
 TDrop == /\ Is("drop") /\ reach' = [reach EXCEPT ![Ev.id] = FALSE]
-         /\ Adv /\ lastb' = 99 /\ UNCHANGED <<kind, iso, fin, rel, ctx, nctx, dead, killedc>>
-TCollect == /\ Is("collect") /\ Adv /\ lastb' = 99 /\ UNCHANGED <<kind, iso, reach, fin, rel, ctx, nctx, dead, killedc>>
+         /\ Adv /\ lastb' = 2000000000 /\ UNCHANGED <<kind, iso, fin, rel, ctx, nctx, dead, ord, killedc>>
+(* setmetatable again on a marked value: it becomes the most recently marked one and may be finalised (once) again *)
+TRemark == /\ Is("remark") /\ kind[Ev.id] # "none"
+           /\ ord' = [ord EXCEPT ![Ev.id] = l] /\ fin' = [fin EXCEPT ![Ev.id] = 0]
+           /\ Adv /\ lastb' = 2000000000 /\ UNCHANGED <<kind, iso, reach, rel, ctx, nctx, dead, killedc>>
+TCollect == /\ Is("collect") /\ Adv /\ lastb' = 2000000000 /\ UNCHANGED <<kind, iso, reach, fin, rel, ctx, nctx, dead, ord, killedc>>
 TEnter == /\ Is("enter") /\ nctx' = nctx + 1 /\ ctx' = Append(ctx, nctx + 1)
-          /\ Adv /\ lastb' = 99 /\ UNCHANGED <<kind, iso, reach, fin, rel, dead, killedc>>
+          /\ Adv /\ lastb' = 2000000000 /\ UNCHANGED <<kind, iso, reach, fin, rel, dead, ord, killedc>>
 
 (* Ev.phase: "run", or "pop" when the event belongs to the block of finaliser/release events that immediately
    precedes the end of the innermost context, or "close" for the block after the main chunk ended *)
@@ -75,11 +80,11 @@ TGc ==
   /\ iso[Ev.id] \notin dead                            \* inside the context that created it ...
   /\ (Ev.phase = "close" \/ iso[Ev.id] = 0 \/ \E j \in 1..Len(ctx) : ctx[j] = iso[Ev.id])
   /\ rel[Ev.id] = 0                                    \* release comes after the finaliser
-  /\ (reach[Ev.id] => Ev.id < lastb)                   \* pending finalisers of a closing context: reverse order of marking
-  /\ lastb' = IF reach[Ev.id] THEN Ev.id ELSE lastb
+  /\ (reach[Ev.id] => ord[Ev.id] < lastb)              \* pending finalisers of a closing context: reverse order of marking
+  /\ lastb' = IF reach[Ev.id] THEN ord[Ev.id] ELSE lastb
   /\ fin' = [fin EXCEPT ![Ev.id] = 1]
   /\ reach' = [reach EXCEPT ![Ev.id] = IF Resurrects(kind[Ev.id]) /\ ~Closing(Ev.id) THEN TRUE ELSE reach[Ev.id]]
-  /\ Adv /\ UNCHANGED <<kind, iso, rel, ctx, nctx, dead, killedc>>
+  /\ Adv /\ UNCHANGED <<kind, iso, rel, ctx, nctx, dead, ord, killedc>>
 
 TRel ==
   /\ Is("release") /\ HasRel(kind[Ev.id])
@@ -87,7 +92,7 @@ TRel ==
   /\ (~reach[Ev.id] \/ Closing(Ev.id))
   /\ (HasGc(kind[Ev.id]) => (fin[Ev.id] = 1 \/ (Ev.phase = "pop" /\ Ev.pst = "killed")))   \* after its finaliser, unless the context was killed
   /\ rel' = [rel EXCEPT ![Ev.id] = 1]
-  /\ Adv /\ UNCHANGED <<kind, iso, reach, fin, ctx, nctx, dead, killedc, lastb>>
+  /\ Adv /\ UNCHANGED <<kind, iso, reach, fin, ctx, nctx, dead, ord, killedc, lastb>>
 
 (* the innermost limited context ended with status Ev.st: everything it created is finalised (unless killed)
    and released; finalisers of values still pending at that point ran in reverse order of marking (Ev.ordered) *)
@@ -97,23 +102,23 @@ TLeave ==
   /\ \A i \in Ids : (kind[i] # "none" /\ iso[i] \in Ending(Ev.lvl)) =>
         /\ (HasGc(kind[i]) /\ Ev.st # "killed" => fin[i] = 1)
         /\ (HasRel(kind[i]) => rel[i] = 1)
-  /\ lastb' = 99
+  /\ lastb' = 2000000000
   /\ dead' = dead \cup Ending(Ev.lvl) /\ ctx' = SubSeq(ctx, 1, Ev.lvl - 1)
   /\ killedc' = IF Ev.st = "killed" THEN killedc \cup Ending(Ev.lvl) ELSE killedc
   /\ reach' = [i \in Ids |-> IF iso[i] \in Ending(Ev.lvl) THEN FALSE ELSE reach[i]]
-  /\ Adv /\ UNCHANGED <<kind, iso, fin, rel, nctx>>
+  /\ Adv /\ UNCHANGED <<kind, iso, fin, rel, nctx, ord>>
 
 (* the runtime was closed *)
 TEnd ==
   /\ Is("end") /\ ctx = <<>>
   /\ \A i \in Ids : kind[i] # "none" => ((HasGc(kind[i]) => (fin[i] = 1 \/ iso[i] \in killedc)) /\ (HasRel(kind[i]) => rel[i] = 1))
-  /\ Adv /\ UNCHANGED <<kind, iso, reach, fin, rel, ctx, nctx, dead, killedc, lastb>>
+  /\ Adv /\ UNCHANGED <<kind, iso, reach, fin, rel, ctx, nctx, dead, ord, killedc, lastb>>
 
 TReset == /\ Is("reset") /\ Adv
           /\ kind' = [i \in Ids |-> "none"] /\ iso' = [i \in Ids |-> 0] /\ reach' = [i \in Ids |-> FALSE]
-          /\ fin' = [i \in Ids |-> 0] /\ rel' = [i \in Ids |-> 0] /\ ctx' = <<>> /\ nctx' = 0 /\ dead' = {} /\ killedc' = {} /\ lastb' = 99
+          /\ fin' = [i \in Ids |-> 0] /\ rel' = [i \in Ids |-> 0] /\ ctx' = <<>> /\ nctx' = 0 /\ dead' = {} /\ ord' = [i \in Ids |-> 0] /\ killedc' = {} /\ lastb' = 2000000000
 
-TNext == TMk \/ TDrop \/ TCollect \/ TEnter \/ TGc \/ TRel \/ TLeave \/ TEnd \/ TReset
+TNext == TMk \/ TDrop \/ TRemark \/ TCollect \/ TEnter \/ TGc \/ TRel \/ TLeave \/ TEnd \/ TReset
 TSpec == TInit /\ [][TNext]_tvars
 MarkC == TLCSet(1, IF TLCGet(1) < l THEN l ELSE TLCGet(1))
 Accepted == PrintT(<<"@@", ToJson([hw |-> TLCGet(1)])>>) /\ TLCGet(1) = Len(Trace) + 1
